@@ -495,6 +495,7 @@ def obligations_cli(ctx, base_it, env):
                                slept if not isinstance(slept, bool) else z3.BoolVal(slept), 'INT', func='dfu.cli_main', kind='effect', cover=False,
                                meta={'replay': ('dfu', {'props': ['C18'], 'key_prefix': 'poll'}), 'props': ['C18'],
                                      'what': 'a GETSTATUS response is not followed by a wait of its bwPollTimeout before the next request'}))
+        erase_loops, padded_len = {}, {}
         # loop bodies
         for e in p.effects:
             if e[0] != 'body-end':
@@ -539,6 +540,8 @@ def obligations_cli(ctx, base_it, env):
                     a = d.values[1]
                     at = a.t if I.is_sym(a) else z3.IntVal(a)
                     last_addr = at
+                    if d.values and d.values[0] == 0x41 and loop[0] == 'for':
+                        erase_loops[loop[1]] = (at, x[5])
                     goal = z3.And((at - BASE) % 1024 == 0, at >= BASE, at + 1024 <= BASE + 1024 * 128)
                     ctx.add(Obligation('dfu.cli_main/path%d/C18-%s%d-address-is-a-page-inside-flash' % (i, loop[0], loop[1]), list(p.pc[:x[5]]),
                                        goal, 'INT', func='dfu.cli_main', kind='effect', cover=False,
@@ -554,6 +557,7 @@ def obligations_cli(ctx, base_it, env):
                         stt = st_.t if I.is_sym(st_) else z3.IntVal(st_)
                         spt = sp_.t if I.is_sym(sp_) else z3.IntVal(sp_)
                         goal = z3.And(stt == last_addr - BASE, spt == stt + 1024, spt <= fl, fl % 1024 == 0, fl >= n, fl - n < 1024)
+                        padded_len['fl'] = fl
                         # the write loop visits EVERY page of the padded image: the chunk offset is 0 in the first iteration, grows by a
                         # page per iteration, and the first offset not visited is the padded length
                         rng = p.notes.get('ranges', {}).get(loop[1])
@@ -573,19 +577,26 @@ def obligations_cli(ctx, base_it, env):
                                        list(p.pc[:x[5]]), goal, 'INT', func='dfu.cli_main', kind='effect', cover=False,
                                        meta={'replay': ('dfu', {'props': ['C18']}), 'props': ['C18'], 'unrecognised': z3.is_false(goal),
                                              'what': 'the chunk written is not the 1024 bytes of the zero-padded image at the address just set'}))
-        # both loops range over the same pages, starting with the first: the pages erased are the pages written
-        rngs = p.notes.get('ranges', {})
-        if len(rngs) >= 2:
-            ks = sorted(rngs)[:2]
-            (lo1, hi1, s1), (lo2, hi2, s2) = rngs[ks[0]], rngs[ks[1]]
-            L = lambda v: (v.t if I.is_sym(v) else z3.IntVal(int(v)))     # noqa: E731
-            fwlen2 = None
-            same = z3.And(L(lo1) == L(lo2), L(hi1) == L(hi2), z3.BoolVal(s1 == s2))
-            first = z3.Or(L(lo1) == 0, L(lo1) == 0x08000000)
-            ctx.add(Obligation('dfu.cli_main/path%d/C18-erase-and-write-loops-cover-the-same-pages-from-the-first' % i, list(p.pc),
-                               z3.And(same, first), 'INT', func='dfu.cli_main', kind='invariant', cover=False,
-                               meta={'replay': ('dfu', {'props': ['C18']}), 'props': ['C18'],
-                                     'what': 'the erase loop and the write loop do not range over the same pages starting with page 0'}))
+        # the pages erased are exactly the pages of the padded image (whatever the loop counts: pages, addresses or offsets): the erase
+        # address is the flash base in the first iteration, grows by a page per iteration, and the first address not visited is base + length
+        if 'fl' in padded_len:
+            for k, (at_t, pclen) in erase_loops.items():
+                rng = p.notes.get('ranges', {}).get(k)
+                kv = p.notes.get('iters', {}).get(k)
+                if rng is None or kv is None:
+                    continue
+                lo_, hi_, st_k = rng
+                Lz = lambda v: (v.t if I.is_sym(v) else z3.IntVal(int(v)))     # noqa: E731
+                kt = Lz(kv)
+                at_of = lambda e2: z3.substitute(at_t, (kt, e2))               # noqa: E731
+                fl = padded_len['fl']
+                cover = z3.And(at_of(Lz(lo_)) == 0x08000000, at_of(kt + st_k) - at_t == 1024,
+                               z3.Implies(Lz(hi_) > Lz(lo_), at_of(Lz(lo_) + ((Lz(hi_) - Lz(lo_) + st_k - 1) / st_k) * st_k) == 0x08000000 + fl),
+                               z3.Implies(Lz(hi_) <= Lz(lo_), fl == 0))
+                ctx.add(Obligation('dfu.cli_main/path%d/C18-for%d-erase-loop-visits-every-page-of-the-padded-image' % (i, k), list(p.pc), cover, 'INT',
+                                   func='dfu.cli_main', kind='invariant', cover=False,
+                                   meta={'replay': ('dfu', {'props': ['C18']}), 'props': ['C18'],
+                                         'what': 'the erase loop does not visit exactly the pages of the zero-padded image'}))
     if n_req_paths == 0:
         ctx.errors.append('dfu.cli_main: no path sends a request')
     ctx.samples.append({'dfu_cli_paths': len(paths), 'paths_with_requests': n_req_paths})
